@@ -91,32 +91,44 @@ def run(tier):
         locs, consts, calls, places = MU.backward_slice(b, [stt["args"][1]])
         if any(c.get("str") == "pc" for c in consts):
             pcs.append((sbb, stt))
-    rep.ob("C03.glue|pc-site", len(pcs) == 1, "exactly one store of the special symbol `pc` in the item loop (%d)" % len(pcs), kind="unprovable")
-    if pcs:
-        sbb, stt = pcs[0]
-        # the stored value is Expr::Const(<counter> as i64): chase the aggregate operand through copies and casts only
+    # within one round of the item loop: every store of `pc` from which the encoder call can still be reached must store the very
+    # counter the encoder gets, unmodified in between, and at least one such store lies on every path to the encoder call
+    import rules_C16
+    loops = [(h, nodes) for h, nodes in rules_C16.natural_loops(b).items() if pbb in nodes]
+    head, nodes = min(loops, key=lambda x: len(x[1])) if loops else (None, set(range(len(b["blocks"]))))
+
+    def reaches_encoder(x):
+        return pbb in G.reach_blocks(b, x, lambda y: y == head and y != x)
+
+    def good(sbb, stt):
         vroot, vproj, _ = ch.root(stt["args"][2], through_calls=False)
         d = ch.single_def(vroot)
         src = None
         if d and d[0] == "stmt" and d[2]["k"] == "agg" and d[2]["kind"].get("vname") == "Const" and d[2]["ops"]:
             src, sproj, _ = ch.root(d[2]["ops"][0], through_calls=False)
         same = src is not None and src == addr_root and not addr_proj
-        rep.ob("C03.glue|same-counter", same,
-               "`pc` is Expr::Const of the very counter (_%d) that is passed to the encoder as current_address (copies and casts only)" % addr_root if same else
-               "`pc` is not a plain copy of the counter passed to the encoder as current_address (offset added or different value)",
-               loc=loc_of(b["blocks"][sbb]["tspan"]))
-        dom = G.dominates(idom, sbb, pbb)
-        rep.ob("C03.glue|pc-before-encode", dom, "the store of `pc` dominates the encoder call" if dom else
-               "the encoder can run before `pc` is stored for this item", loc=loc_of(b["blocks"][pbb]["tspan"]))
-        # the counter is not written between the pc store and the encoder call
-        between = G.reach_blocks(b, sbb, lambda x: x == pbb)
+        between = G.reach_blocks(b, sbb, lambda x: x == pbb or x == head)
         wr = False
         for x in between:
             if x == sbb:
                 continue
             for st in b["blocks"][x]["stmts"]:
-                if st["k"] == "assign" and st["place"]["local"] == addr_root and G.dominates(idom, x, pbb):
+                if st["k"] == "assign" and st["place"]["local"] == addr_root and pbb in G.reach_blocks(b, x, lambda y: y == head and y != x):
                     wr = True
-        rep.ob("C03.glue|counter-stable", not wr, "the counter is not modified between the `pc` store and the encoder call" if not wr else
-               "the counter is modified between the `pc` store and the encoder call")
+        return same, not wr
+
+    live = [(sbb, stt) for sbb, stt in pcs if sbb in nodes and sbb != pbb and reaches_encoder(sbb)]
+    rep.count("stores of `pc` that can reach the encoder call within one item", len(live))
+    doms = [x for x in live if G.dominates(idom, x[0], pbb)]
+    rep.ob("C03.glue|pc-before-encode", bool(doms), "a store of `pc` lies on every path from the start of the item to the encoder call" if doms else
+           "the encoder can run for an item without `pc` having been stored for that item (a `pc`-relative target then uses the address of an earlier item)",
+           loc=loc_of(b["blocks"][pbb]["tspan"]))
+    bad_same = [x for x in live if not good(*x)[0]]
+    bad_stable = [x for x in live if not good(*x)[1]]
+    rep.ob("C03.glue|same-counter", not bad_same,
+           "`pc` is Expr::Const of the very counter (_%d) that is passed to the encoder as current_address (copies and casts only)" % addr_root if not bad_same else
+           "`pc` is not a plain copy of the counter passed to the encoder as current_address (offset added or different value)",
+           loc=loc_of(b["blocks"][(bad_same or live or [(pbb, None)])[0][0]]["tspan"]))
+    rep.ob("C03.glue|counter-stable", not bad_stable, "the counter is not modified between the `pc` store and the encoder call" if not bad_stable else
+           "the counter is modified between the `pc` store and the encoder call")
     return rep
